@@ -226,31 +226,21 @@ func planScreen(rng *rand.Rand, nops int, w, h int, mix string, rich bool, hasCa
 			continue
 		}
 		switch {
-		case k < 45:
-			o := setc()
-			add(o)
-			last = append(last, o)
-			if len(last) > 8 {
-				last = last[1:]
-			}
-		case k < 46 && rich && rng.Intn(10) == 0:
+		case k < 45 && rich && rng.Intn(40) == 0:
 			// adjacent cells whose styles differ in exactly one component, painted in one frame
 			y, x0 := rng.Intn(ch), 0
-			for i, st := range tcx.StyleVariants(rng) {
-				if x0+i >= cw {
-					break
-				}
+			for i, st := range tcx.StyleVariants(rng, cw) {
 				add(sop{Op: "SetContent", X: x0 + i, Y: y, R: 'u', St: st})
 			}
 			add(sop{Op: "Show"})
-		case k < 47 && len(last) > 0 && rng.Intn(6) == 0:
+		case k < 45 && len(last) > 0 && rng.Intn(40) == 0:
 			// a fallback registered or removed for a rune that is on the screen: in a UTF-8 locale nothing changes,
 			// and nothing may be repainted for it
 			o := last[rng.Intn(len(last))]
 			add(sop{Op: "Show"})
 			add(sop{Op: "Fallback", R: o.R, B: rng.Intn(2) == 0, S: "?"})
 			add(sop{Op: "Show"})
-		case k < 46 && cw >= 5 && rng.Intn(8) == 0:
+		case k < 45 && cw >= 5 && rng.Intn(40) == 0:
 			// bottom line: a wide rune, shown; another wide rune one column to its left (the first stays stored but
 			// hidden); then the corner cell changes - whoever owns column w-2 must be found by walking the line
 			y := ch - 1
@@ -262,7 +252,7 @@ func planScreen(rng *rand.Rand, nops int, w, h int, mix string, rich bool, hasCa
 			}
 			add(sop{Op: "SetContent", X: cw - 1, Y: y, R: []rune{'#', '|', 'x'}[rng.Intn(3)], St: tcx.RandStyle(rng, rich, true)})
 			add(sop{Op: "Show"})
-		case k < 46 && cw >= 2 && rng.Intn(6) == 0:
+		case k < 45 && cw >= 2 && rng.Intn(40) == 0:
 			// a wide rune over cells painted before, then the same Fill/Clear again: the column it covered
 			// holds what it held before, and must be shown again
 			base := sop{Op: "Clear"}
@@ -275,6 +265,13 @@ func planScreen(rng *rand.Rand, nops int, w, h int, mix string, rich bool, hasCa
 			add(sop{Op: "Show"})
 			add(base)
 			add(sop{Op: "Show"})
+		case k < 45:
+			o := setc()
+			add(o)
+			last = append(last, o)
+			if len(last) > 8 {
+				last = last[1:]
+			}
 		case k < 48 && len(last) > 0: // re-store identical content (C13)
 			add(last[rng.Intn(len(last))])
 		case k < 50: // read a cell back and store what was read (an unchanged cell, whatever wrote it)
